@@ -52,3 +52,36 @@ Proof.
   intros O Hm ops x fuel t E. destruct (C02_bt K V cmp zeroV O m Hm ops) as (_ & Hs & _).
   rewrite E in Hs. destruct Hs as [d Hwf]. now apply bt_bound_check with (d := d).
 Qed.
+
+(* ---- B-tree Put / Remove: the bounds Check.bound_op applies are the proved ones ---- *)
+From VF Require Import C17.BTCost C17.ProofsBT.
+
+Definition root_entries {K V} (r : option (BTree.node K V)) : nat :=
+  match r with Some t => entries_count K V t | None => O end.
+
+Lemma bt_put_bound_check K V (cmp : K -> K -> Z) m (r : option (BTree.node K V)) k v : (3 <= m)%nat -> BTShape K V m r ->
+  Z.of_nat (put_cost K V cmp m r k v) <= bound_op (KBT m) Check.BPut (Z.of_nat (root_entries r)).
+Proof.
+  intros Hm H. destruct r as [t|]; [|reflexivity]. destruct H as [d Hwf]. cbn [put_cost root_entries].
+  pose proof (bt_put_cost K V cmp m (S (BTree.depth K V t)) k v d t Hm Hwf) as Hc. unfold bound_op, bound_get, zlog2n.
+  replace (Z.of_nat (entries_count K V t) + 1) with (Z.of_nat (S (entries_count K V t))) by lia.
+  rewrite <- log2_nat_Z. replace (Z.of_nat m - 1) with (Z.of_nat (m - 1)) by lia. rewrite <- log2_nat_Z. nia.
+Qed.
+
+Lemma bt_remove_bound_check K V (cmp : K -> K -> Z) m (r : option (BTree.node K V)) k : (3 <= m)%nat -> BTShape K V m r ->
+  Z.of_nat (remove_cost K V cmp m r k) <= bound_op (KBT m) Check.BRemove (Z.of_nat (root_entries r)).
+Proof.
+  intros Hm H. destruct r as [t|]; [|reflexivity]. destruct H as [d Hwf]. cbn [remove_cost root_entries].
+  pose proof (bt_remove_cost K V cmp m (S (BTree.depth K V t)) k d t Hm Hwf) as Hc. unfold bound_op, bound_get, zlog2n.
+  replace (Z.of_nat (entries_count K V t) + 1) with (Z.of_nat (S (entries_count K V t))) by lia.
+  rewrite <- log2_nat_Z. replace (Z.of_nat m - 1) with (Z.of_nat (m - 1)) by lia. rewrite <- log2_nat_Z. nia.
+Qed.
+
+Lemma bt_reachable_mut_cost K V (cmp : K -> K -> Z) (zeroV : V) m : CmpLaws cmp -> (3 <= m)%nat -> forall ops k v,
+  let r := BTree.root (fst (run (BTree.step K V cmp zeroV m) (BTree.empty K V) ops)) in
+  Z.of_nat (put_cost K V cmp m r k v) <= bound_op (KBT m) Check.BPut (Z.of_nat (root_entries r)) /\
+  Z.of_nat (remove_cost K V cmp m r k) <= bound_op (KBT m) Check.BRemove (Z.of_nat (root_entries r)).
+Proof.
+  intros O Hm ops k v r. destruct (C02_bt K V cmp zeroV O m Hm ops) as (_ & Hs & _). fold r in Hs.
+  split; [now apply bt_put_bound_check|now apply bt_remove_bound_check].
+Qed.
